@@ -31,6 +31,27 @@ def summarize_device(dev) -> Dict[str, Any]:
     return out
 
 
+class _Unconstructible:
+    """Stands in for a bridge whose constructor refused its arguments."""
+
+    is_running = False
+
+    def __init__(self, exc):
+        self.exc = exc
+
+    async def start(self):
+        raise self.exc
+
+    async def stop(self):
+        return None
+
+    async def __aenter__(self):
+        raise self.exc
+
+    async def __aexit__(self, *a):
+        return None
+
+
 class UdpRun:
     def __init__(self):
         self.sim = None
@@ -94,8 +115,12 @@ def run(scn: Dict[str, Any]) -> UdpRun:
         out.bridge_ports = []
         for bidx, bs in enumerate(specs):
             ports = bs.get("ports")
-            bridges.append(SwitcherBridge(make_callback(bidx), list(ports)) if ports is not None
-                           else SwitcherBridge(make_callback(bidx)))
+            try:
+                bridges.append(SwitcherBridge(make_callback(bidx), list(ports)) if ports is not None
+                               else SwitcherBridge(make_callback(bidx)))
+            except Exception as e:  # noqa
+                # a constructor that rejects the port list outright: every later start on it "fails, nothing held"
+                bridges.append(_Unconstructible(e))
             out.bridge_ports.append(list(ports) if ports is not None else [20002, 10002, 20003, 10003])
         bridge = bridges[0]
         out.ports = out.bridge_ports[0]
@@ -211,7 +236,8 @@ def run(scn: Dict[str, Any]) -> UdpRun:
             sim.rec("action", kind, bidx, "invoke")
             sim.mark("user%d" % bidx, kind)
             sim.current_owner = ("bridge", bidx)
-            in_stop[0] = kind in ("stop", "aexit")
+            # (a start on a running bridge may tear everything down through the same stop path)
+            in_stop[0] = kind in ("stop", "aexit") or bool(b.is_running)
             try:
                 if kind == "start":
                     await b.start()
